@@ -1,22 +1,24 @@
-(* C09 — decode a case, run the model (parse, compile, encode) and the spec
+(* C09 -- decode a case, run the model (parse, compile, encode) and the spec
    (meaning of the generator's AST), encode the observables.  Shared with C11.
+   ("x.." below means zero or more x.)
 
    model case: ( mode pattern rec mdc thread cls rt times ast )
      strings are lists of code points; options are () or (v)
      mode  0 = list the date formats the compiled pattern will render
+               (short case: ( 0 pattern cls ))
            1 = construct + encode     2 = construct only
      rec   ( level msg target module? file? line? )
-     mdc   ( (key value)* )           thread () | (name)
-     cls   ( (cp is_alphabetic is_alphanumeric)* )   oracle for non-ASCII chars
+     mdc   ( (key value).. )          thread () | (name)
+     cls   ( (cp is_alphabetic is_alphanumeric).. )  oracle for non-ASCII chars
      rt    ( pid thread_id debug_assertions )
-     times ( (fmt valid utc local)* )                oracle for chrono
-     ast   () | ( (node*) )   node = (0 text) | (1 c st) | (2 name ((node*)*) spec)
+     times ( (fmt valid utc local).. )               oracle for chrono
+     ast   () | ( (node..) )   node = (0 text) | (1 c st) | (2 name ((node..)..) spec)
            spec = (colon fa min max), fa = () | (() a) | ((fill) a), a: 0 '<' 1 '>',
            min/max = () | (digits)
    result (mode 1/2): ( res flags meaning )
-     res     "panic" | "ok" | ( event* ), event = (cp*) | style code
+     res     "panic" | "ok" | ( event.. ), event = ( cp.. ) | style code
      flags   ( has_ast wf_strict wf_lax sem_ok sem_ok_mod_class mdc_class )
-     meaning ( event* ) of the AST (empty without AST)                        *)
+     meaning ( event.. ) of the AST (empty without AST) -- *)
 From Coq Require Import String Ascii.
 From Coq Require Import List NArith Bool.
 Import ListNotations.
